@@ -278,7 +278,8 @@ fn c07_cfg(a: u16, b: u16, third: Option<u16>, depth: usize) -> TxnCfg {
         prefix: Vec::new(),
         transactions: false,
         max_depth: depth,
-        obs: TxnObs { isolation: true, ..Default::default() },
+        // the forest oracle too: a build that *reads* a neighbour's nodes damages the index being built
+        obs: TxnObs { isolation: true, forest: true, ..Default::default() },
         probe_ids: vec![0, 1, u32::MAX - 1, u32::MAX],
         label: format!("idx{a}-idx{b}{}-depth{depth}", third.map_or(String::new(), |t| format!("-idx{t}"))),
     }
